@@ -200,7 +200,7 @@ def explain(ck: Check, s: sg.Schema, v: Any) -> Optional[List[int]]:
 
 # ---- the check ---------------------------------------------------------------------------------
 
-def run_opmode(ck: Check, prop_file: str, n_quick=(100, 36, 3), n_thorough=(1400, 2112, 6)) -> None:
+def run_opmode(ck: Check, prop_file: str, n_quick=(100, 36, 3), n_thorough=(1400, 4160, 6)) -> None:
     ck.assumptions.extend(ASSUME)
     ck.coverage["trusted_base"] = ["Coq 8.16.1 kernel + vm_compute", "tools/translate.py + tools/translate_opmode.py",
                                    "tools/t1_opmode.py", "tools/run_opmode.py + gcc + ctypes (x86-64)",
@@ -214,8 +214,14 @@ def run_opmode(ck: Check, prop_file: str, n_quick=(100, 36, 3), n_thorough=(1400
     n_corpus = len(cases)
     cases.extend(gen_cases(ck, ns, nsingle, nv))
     jobs = []
+    flag_cycle = [["gcc", "-O1"]] if ck.quick else [["gcc", "-O0"], ["gcc", "-O1"], ["gcc", "-O2"], ["gcc", "-O3"],
+                                                     ["clang", "-O0"], ["clang", "-O2"]]
+    if os.environ.get("VERIF_C04_CFLAGS"):
+        flag_cycle = [["gcc"] + os.environ["VERIF_C04_CFLAGS"].split()]
     for i, (s, vals, origin, named) in enumerate(cases):
-        jobs.append(make_job(ck, i, s, vals, random.Random(f"{ck.prop}:{ck.seed}:buf:{i}")))
+        j = make_job(ck, i, s, vals, random.Random(f"{ck.prop}:{ck.seed}:buf:{i}"))
+        j["cc"] = flag_cycle[i % len(flag_cycle)]
+        jobs.append(j)
     import sys as _sys, time as _time
     _t0 = _time.time()
     results = run_workers("run_opmode.py", jobs, chunk=max(2, len(jobs) // 48), timeout=900)
@@ -336,6 +342,8 @@ def run_opmode(ck: Check, prop_file: str, n_quick=(100, 36, 3), n_thorough=(1400
     print(f"[{ck.prop}] timing: {ck.coverage['tie']['timing_s']}", file=_sys.stderr)
     counts: Dict[str, int] = {}
     n_tie = n_spec = 0
+    found: List[Tuple[int, str, Dict[str, Any]]] = []      # concrete failing inputs, smallest first
+    ties: List[Tuple[int, Broken]] = []
     for (i, kind, k), code in out:
         counts[f"{kind}:{code}"] = counts.get(f"{kind}:{code}", 0) + 1
         if code == 0:
@@ -357,18 +365,28 @@ def run_opmode(ck: Check, prop_file: str, n_quick=(100, 36, 3), n_thorough=(1400
             replay = {"schema": sg.schema_to_json(s), "value": sg.value_to_json(s.top, v), "config": cfg,
                       "observed": {"enc": rr.get("enc"), "dec_leaf_patterns": rr.get("dec")},
                       "leaves": [d for d, _ in py_leaves(s.top)], "origin": origin, "stage": kind}
-            if len([x for x in ck.violations if x["found_input"]]) < 3:
-                replay["specified_wire"] = explain(ck, s, v)
-            ck.violation(what, replay, found_input=True)
+            found.append((len(json.dumps(replay["schema"]["texts"])) + len(json.dumps(replay["value"])), what, replay))
         elif code & 1:
             n_tie += 1
             detail = {"schema": s.texts, "config": cfg, "stage": kind, "origin": origin}
             if kind != "rand":
                 detail["value"] = sg.value_to_json(s.top, vals[vi])
                 detail["observed"] = r["runs"][cfg][vi]
-            ck.broken(Broken(f"tie T2: the statement semantics (OpMode.exec over the plan) and the gcc-built "
-                             f"implementation disagree on {kind} (config {cfg}, schema {origin})",
-                             json.dumps(detail)[:2500]))
+            ties.append((len(json.dumps(detail)),
+                         Broken(f"tie T2: the statement semantics (OpMode.exec over the plan) and the gcc-built "
+                                f"implementation disagree on {kind} (config {cfg}, schema {origin})",
+                                json.dumps(detail)[:2500])))
+    found.sort(key=lambda x: x[0])
+    for rank, (_, what, replay) in enumerate(found):
+        if rank < 3:                       # the smallest failing cases carry the specified bytes
+            s_ = sg.schema_from_json(replay["schema"])
+            replay["specified_wire"] = explain(ck, s_, sg.value_from_json(s_.top, replay["value"]))
+        ck.violation(what, replay, found_input=True)
+    ties.sort(key=lambda x: x[0])
+    for _, b in ties[:3]:
+        ck.broken(b)
+    if len(ties) > 3:
+        print(f"[{ck.prop}] ... and {len(ties) - 3} more T2 tie mismatches", file=_sys.stderr)
     for i, msg in list(t1_fail.items())[:4]:
         s, vals, origin, named = cases[i]
         ck.broken(Broken(f"tie T1 (emitted -O statements vs OpMode.plan) on schema {origin}: {msg}",
@@ -387,7 +405,7 @@ def run_opmode(ck: Check, prop_file: str, n_quick=(100, 36, 3), n_thorough=(1400
                   "t1_functions_compared": n_stmt_funcs, "codes": counts, "tie_mismatches": n_tie,
                   "spec_mismatches": n_spec, "impl_failures": impl_fail,
                   "go": "T1 only: Go statements are parsed and compared with the plan; their semantics are modelled, never executed",
-                  "c_configs": [c[0] for c in CFG], "cflags": os.environ.get("VERIF_C04_CFLAGS", "-O1")}
+                  "c_configs": [c[0] for c in CFG], "compilers": [" ".join(f) for f in flag_cycle]}
     cov["distribution"] = sg.distribution([c[0] for c in cases])
     for (s, vals, origin, named), r in list(zip(cases, results))[:2]:
         if "runs" in r and vals and "little" in r["runs"]:
